@@ -274,7 +274,7 @@ func run(p plan) (o outcome) {
 
 func TestCheck(t *testing.T) {
 	r := vh.Start(t, "C13")
-	n := r.Pick(1200, 40000)
+	n := r.Pick(1200, 15000)
 	kinds := []string{"producer", "direct", "group", "group848", "txn", "share"}
 	modes := []string{"responsive", "stalled", "gone"}
 	for i := 0; i < n; i++ {
